@@ -1450,6 +1450,20 @@ func (m *Matcher) loopKeyW(fr *frame, l *Loop) string {
 	case l.Bound != nil:
 		return m.sizeKey(fr, l.Bound)
 	case l.Range != nil:
+		// for _, v := range x[:n] (or x[0:n]) runs n times
+		if se, ok := stripConv(fr.ctx, l.Range).(*ast.SliceExpr); ok && se.High != nil && !se.Slice3 {
+			lowZero := se.Low == nil
+			if !lowZero {
+				if tv, ok := fr.ctx.Info.Types[se.Low]; ok && tv.Value != nil {
+					if n, ok := constInt(tv.Value); ok && n == 0 {
+						lowZero = true
+					}
+				}
+			}
+			if lowZero {
+				return m.sizeKey(fr, se.High)
+			}
+		}
 		if call, ok := stripConv(fr.ctx, l.Range).(*ast.CallExpr); ok && len(call.Args) == 0 {
 			if sel, ok := call.Fun.(*ast.SelectorExpr); ok {
 				if s, ok := m.collection(fr, sel.X, calleeOf(fr.ctx.Info, call), 0); ok {
